@@ -2,6 +2,7 @@
 import itertools
 
 from vlib import harness as H
+from vlib import deepchain as DC
 from vlib import texgen as G
 from vlib import tokstr as T
 from vlib import oracles as O
@@ -184,7 +185,16 @@ def nontrivial(regions, seps):
 
 def plan(ctx):
     return [('shard_exhaustive', [('ex', i, 16) for i in range(16)]),
-            ('shard_random', [('rnd', ctx.pick(2500, 60000), i) for i in range(16)])]
+            ('shard_random', [('rnd', ctx.pick(2500, 60000), i) for i in range(16)]),
+            ('shard_deep', [('deep', i, 8) for i in range(8)])]
+
+
+DEEP_PARTS = ('parse', 'roundtrip', 'math', 'search')
+
+
+def shard_deep(ctx, shard):
+    # chains nested as deeply as the pinned tree can handle (vlib/deepchain.py); closed-form oracle
+    return DC.shard('C12', DEEP_PARTS, shard[1], shard[2], H.Result())
 
 
 def shard_exhaustive(ctx, shard):
@@ -261,4 +271,6 @@ def shard_random(ctx, shard):
 
 
 def replay(case):
+    if case.get('sub') == 'deep-chain':
+        return DC.replay('C12', DEEP_PARTS, case)
     verify(case['src'], [tuple(x) for x in case['expected']], list(case['commands']), case)
